@@ -308,7 +308,7 @@ def eigen(X, P, NSIG=None, method='music', threshold=None, NFFT=default_NFFT,
 
     #return PSD, S
 
-    newpsd = np.append(PSD[nby2:0:-1], PSD[nby2*2-1:nby2-1:-1])
+    newpsd = np.append(PSD[nby2::-1], PSD[NFFT-1:nby2:-1])
     return newpsd, S
 
 
